@@ -452,7 +452,8 @@ CHECKS["C13"] = {
               "the instant the client's receiver asks for its next envelope, right after establishment or right after a delivered message: every client reaches the finished state. "
               "Plus the high-level Client against scripted servers (every script of up to 2, thorough 3, symbols of the client-handshake alphabet and drawn ones, a third of them announcing the established session early): "
               "when the handshake in progress has taken an established session, then after Client.Close the Client's end of the connection is closed and no library goroutine is left, whatever Establish returned. "
-              "Server initiators are also drawn busy: their dispatch loop sits in a handler and more notifications than their buffers hold have arrived when they end the session; every terminating call is bounded (one that never returns is a violation, not a hang)."),
+              "Server initiators are also drawn busy: their dispatch loop sits in a handler and more notifications than their buffers hold have arrived when they end the session; every terminating call is bounded (one that never returns is a violation, not a hang). "
+              "Plus, over loopback WebSocket, secure WebSocket and TCP pairs: the server has a send of a large message given up through its context while the client is not reading, then finishes, fails or closes the session: its transport is disconnected when the call returns, its receiver ends, and the client, once it reads again, is not left waiting on its connection."),
     "note": "Schedules are sampled; the terminating call's own return value is not judged (under TLS it can report a close_notify write error after a clean finish). Server-side transports are only visible on in-memory connections.",
     "technique": "property-based testing (rapid) over (initiator, moment, transport, buffers, wiring) with state / stream-closure / goroutine-census oracles; virtual time plus real sockets",
     "rule": "case = (transport, wiring, initiator, buffers, traffic counts, termination moment). Non-trivial: termination with traffic still to be sent, or initiated by the server side, or buffer 0. Distinct by SHA-1 of the case.",
@@ -461,6 +462,7 @@ CHECKS["C13"] = {
         {"test": "TestC13Replay", "kind": "plain"},
         {"test": "TestC13FinishStress", "kind": "plain", "shards": (3, 8), "timeout": (300, 1500), "gomaxprocs": [16, 8, 4, 16, 8, 4, 16, 2]},
         {"test": "TestC13LastWordRace", "kind": "plain", "shards": (3, 8), "timeout": (300, 1500), "gomaxprocs": [16, 8, 4, 16, 8, 4, 16, 2]},
+        {"test": "TestC13AfterAbandonedSend", "kind": "plain", "shards": 5, "timeout": (300, 1500), "gomaxprocs": [4]},
         {"test": "TestC13ClientScriptsEnum", "kind": "plain", "shards": 4, "timeout": (300, 3000)},
         {"test": "TestC13ClientScripts", "kind": "rapid", "shards": 4, "checks": (400, 15000), "timeout": (300, 3000)},
         {"test": "TestC13", "kind": "rapid", "shards": 10, "checks": (150, 6000), "timeout": (300, 3000), "gomaxprocs": [1, 2, 4, 16, 2]},
